@@ -19,6 +19,7 @@ from ..facts import Facts, Matcher, ANY, is_const, const_val, describe, describe
 from ..rules import stores_to_field, rets, guarded_site, blocks_reachable_from
 from ..callgraph import CallGraph
 from ..own import Ownership, zero_alias_closure, EXT_ALLOC
+from ..nullstate import NullState
 from ..mem import root
 
 RD, BR, HDR, DEC, STR = "LHAReader", "LHABasicReader", "LHAFileHeader", "LHADecoder", "LHAInputStream"
@@ -275,10 +276,42 @@ def run(tier, seed):
         ASSUME_NULL_BEFORE = {
             ("open_decoder", RD, "inner_decoder"): "decoder fields are NULL whenever a decode operation starts: close_decoder runs at every lha_reader_next_file and establishes it (support rule R3c); one decode operation per member is the property's precondition",
             ("open_decoder", RD, "decoder"): "as above (support rule R3c)",
-            ("split_header_filename", HDR, "path"): "called for level-0/1 in-header names before any extended header is decoded, and from parse_symlink right after path was freed and set to NULL (checked: parse_symlink stores NULL to path before the call)",
-            ("process_level0_path", HDR, "filename"): "runs once per header on the calloc'ed header before any extended header is decoded (filename still NULL)",
-            ("parse_symlink", HDR, "symlink_target"): "symlink_target has no other writer and parse_symlink runs at most once per header (single call site in lha_file_header_read)",
         }
+        # fields of an object under construction: NULL-ness decided by an interprocedural typestate from the constructor (nullstate.py)
+        CONSTRUCTORS = {HDR: "lha_file_header_read"}
+        nullstates = {}
+
+        def null_by_construction(fn, st, S, f):
+            """(ok, detail): the store is only ever executed beneath the constructor of S, and on every path from the constructor's
+            entry through every call chain the field is still NULL there"""
+            ctor = mod.fn(CONSTRUCTORS[S]) if S in CONSTRUCTORS else None
+            if ctor is None:
+                return False, None
+            # every invocation of fn happens beneath the constructor
+            seen, todo = set(), [fn.name]
+            while todo:
+                g = todo.pop()
+                if g in seen or g == ctor.name:
+                    continue
+                seen.add(g)
+                gf = mod.functions.get(g)
+                if gf is None or not gf.internal or g in cg.addr_taken:
+                    return False, "%s can be entered from outside %s" % (gf.cname if gf else g, ctor.cname)
+                cs = cg.callers(g)
+                if not cs:
+                    return False, "%s has no caller beneath %s" % (gf.cname, ctor.cname)
+                todo.extend(cs)
+            if (S, f) not in nullstates:
+                ns = NullState(mod, cg, S, f)
+                ns.analyse(ctor, "N")
+                nullstates[(S, f)] = ns
+            got = nullstates[(S, f)].at_store.get((fn.name, st.id))
+            if not got:
+                return False, "the store is not reached from %s" % ctor.cname
+            if set(got) == {"N"}:
+                return True, "NULL on every path from the entry of %s (interprocedural typestate over %d analysed function states)" % (ctor.cname, len(nullstates[(S, f)]._memo))
+            chain = got.get("M") or ()
+            return False, "the field may already hold a block when this store runs, e.g. via %s" % " -> ".join("%s@%s" % (a, b.split(" ")[0]) for a, b in chain)
         n3b = 0
         for (S, f) in sorted(owning):
             if (S, f) in LIST_LINKS or (S, f) == (RD, "curr_file"):
@@ -337,8 +370,13 @@ def run(tier, seed):
                         # leak_paths starts right after the load; acceptable if no exit is reachable with the old value still owned
                         if not fake_leaks:
                             after_ok = True
+                nbc, nbc_detail = (False, None) if (before_ok or after_ok) else null_by_construction(fn, st, S, f)
                 if before_ok or after_ok:
                     rep.ok(r3b, inst, "old value released/moved/NULL %s" % ("before" if before_ok else "after"), st.where())
+                elif nbc:
+                    rep.ok(r3b, inst + " (NULL by construction)", nbc_detail, st.where())
+                elif nbc_detail:
+                    rep.violation(r3b, inst, st.where(), "the old value of the owning field can still be live when it is overwritten: " + nbc_detail, function=fn.cname, obj="%s.%s" % (S, f))
                 elif (fn.cname, S, f) in ASSUME_NULL_BEFORE:
                     rep.assumed(r3b, inst, "A-null-before:%s.%s@%s" % (S, f, fn.cname), ASSUME_NULL_BEFORE[(fn.cname, S, f)], st.where())
                 else:
